@@ -19,6 +19,7 @@ def check(tree, rep, tier='quick', seed=0):
     R.k22e_integer_lines_read_back_exactly(core, rep)
     R.k22f_solution_written_unfiltered(core, rep)
     R.k11e_parser_options(core, rep)
+    R.k22g_every_section_read_back(core, rep)
     R.k11g_parser_objects_untouched(core, rep)
     R.k22_solution_agreement(core, rep)
     R.k14_solution_lists_all(core, rep)
